@@ -21,6 +21,8 @@ RULES = {
     "R01.7": "what is reported is what is stored: the TokenInfo query answers the stored TOKEN_INFO.total_supply and the Balance query "
              "the stored BALANCES[validated address] (zero when absent), unadjusted - the property is about the supply the token "
              "reports and the balances it lists",
+    "R01.8": "the accounts it lists: the AllAccounts listing ranges over the whole BALANCES map and pages through it completely - "
+             "the listing rules of C20 (R20.1 - R20.5) applied to this one listing, so no account with a balance can stay unlisted",
     "A-OVF": "release profile keeps overflow-checks = true",
 }
 
@@ -204,6 +206,7 @@ def run(ctx):
                        detail="%s reports %s, not the stored %s" % (variant, show(got)[:200] if got else "nothing recognisable",
                                                                    "TOKEN_INFO.total_supply" if variant == "TokenInfo" else "BALANCES[address] (zero when absent)"))
         ctx.floor("R01.7", "TokenInfo / Balance answers", n_q, 2)
+        check_accounts_listing(ctx, qg)
     # helpers reachable from no entry point are not transactions; but public functions writing BALANCES
     # that are not reached are listed for the reader
     ctx.floor("R01.1", "balance-moving ExecuteMsg variants", len([v for v in moving if v in EXPECT]), 7)
@@ -429,3 +432,35 @@ def pairwise_unique(ctx, c):
 def check_ovf(ctx):
     from ..idioms import check_overflow_profile
     check_overflow_profile(ctx)
+
+
+class _As(object):
+    """records the obligations of a shared clause under this property's rule id"""
+    def __init__(self, ctx, rule):
+        self._ctx, self._rule = ctx, rule
+
+    def ob(self, rule, key, ok, **kw):
+        return self._ctx.ob(self._rule, "%s %s" % (rule, key), ok, **kw)
+
+    def __getattr__(self, name):
+        return getattr(self._ctx, name)
+
+
+def check_accounts_listing(ctx, groups):
+    from . import C20
+    from .listing import extract
+    spec = C20.LISTINGS[("cw20_base", "AllAccounts")]
+    sub = _As(ctx, "R01.8")
+    n = 0
+    for p in groups.get("AllAccounts", []):
+        if p.is_err():
+            continue
+        L = extract(p)
+        key = "cw20_base::query/AllAccounts"
+        if L is None or L.problem or L.page is None:
+            ctx.ob("R01.8", key + "/shape", False, detail="the account listing is not a paged range over storage: %s" % (
+                (L.problem if L is not None else None) or show(p.ret)[:160]))
+            continue
+        n += 1
+        C20.check_listing(sub, p, key, "cw20_base", "AllAccounts", spec, L)
+    ctx.floor("R01.8", "AllAccounts paths (with and without cursor)", n, 2)
